@@ -53,3 +53,14 @@ U("print_value", "cjson", "harness/print_value.c", enforce="print_value", shape=
   props=["C04", "C05", "C08", "C09", "C14", "C20"], covers=5, unwind=8,
   replace=["ensure", "print_number/print_number_cv", "print_string", "print_array", "print_object"],
   note="type dispatch for every type word; literal writers exact; raw copied through the strlen/memcpy models (pointwise at g_k)")
+U("update_offset", "cjson", "harness/update_offset.c", enforce="update_offset", shape="U", loops=True, expect_loop_obligations=1, defs=["-DVF_STRLEN_HINT"],
+  props=["C04", "C05", "C09", "C14", "C20"], covers=1, note="strlen model with a hinted terminator (loop contract): buffers of every length")
+U("print", "cjson", "harness/print.c", enforce="print", shape="U", props=["C04", "C05", "C07", "C08", "C14", "C20"], covers=3, defs=["-DVF_VIEW_PV_ALLOC"],
+  replace=["print_value", "update_offset"], timeout=(600, 1800),
+  note="both final paths (realloc / allocate+copy+release), allocator may fail at every request; print_value/update_offset replaced by callee views")
+U("cJSON_PrintBuffered", "cjson", "harness/cJSON_PrintBuffered.c", enforce="cJSON_PrintBuffered", shape="U", props=["C04", "C05", "C07", "C08", "C14", "C20"], covers=3,
+  defs=["-DVF_VIEW_PV_ALLOC"], replace=["print_value"], timeout=(600, 1800))
+U("cJSON_PrintPreallocated", "cjson", "harness/cJSON_PrintPreallocated.c", enforce="cJSON_PrintPreallocated", shape="U", props=["C05", "C08", "C09", "C14", "C20"], covers=3,
+  defs=["-DVF_VIEW_PV_LOG"], replace=["print_value"])
+U("cJSON_Print", "cjson", "harness/cJSON_Print.c", enforce="cJSON_Print", shape="U", props=["C04", "C05", "C14", "C20"], covers=1, replace=["print/print_cv"])
+U("cJSON_PrintUnformatted", "cjson", "harness/cJSON_PrintUnformatted.c", enforce="cJSON_PrintUnformatted", shape="U", props=["C04", "C05", "C14", "C20"], covers=1, replace=["print/print_cv"])
